@@ -54,13 +54,36 @@ func ruleCC8(pkgs ...string) Rule {
 					fl := core.NewFlow(f)
 					after := fl.Reaches(func(n ast.Node) bool { return n == sp.At }, nil)
 					joined := fl.MustSeen(true, isJoin(info), func(n ast.Node) bool { return n == sp.At })
+					// a deferred closure whose body joins unconditionally runs on every exit
+					deferJoin := false
+					for _, st := range f.Body.List {
+						if lit := deferredLit(st); lit != nil {
+							for _, ls := range lit.Body.List {
+								hit := false
+								switch ls.(type) {
+								case *ast.ExprStmt, *ast.AssignStmt:
+									ast.Inspect(ls, func(x ast.Node) bool {
+										if isJoin(info)(x) {
+											hit = true
+										}
+										return true
+									})
+								}
+								if hit {
+									deferJoin = true
+								}
+							}
+						}
+					}
 					f.OwnNodes(func(n ast.Node) bool {
 						r, ok := n.(*ast.ReturnStmt)
 						if !ok || !after[r] {
 							return true
 						}
 						key := fmt.Sprintf("%s|return after %s", f.Name, spawnStr(sp))
-						if joined[r] {
+						if deferJoin {
+							rr.OK(f, key, r.Pos(), "joined-in-defer", "a deferred closure waits for the lexer goroutine on every exit")
+						} else if joined[r] {
 							rr.OK(f, key, r.Pos(), "joined", "the lexer goroutine has ended before this return")
 						} else {
 							rr.Bad(f, key, r.Pos(), "the function can return here while the lexer goroutine it started is still running (no join on this path): the goroutine keeps reading the caller's source or stays blocked forever")
